@@ -108,7 +108,9 @@ func runC17(c *core.Ctx) {
 			}(int64(g))
 		}
 		close(start)
-		wg.Wait()
+		if !joinOrDeadlock(c, &wg, fmt.Sprintf("Once%d", arity), "a round of concurrent Do calls", map[string]any{"arity": arity, "goroutines": ng}) {
+			return
+		}
 		for l := 0; l < late; l++ {
 			call(int64(ng + l))
 		}
